@@ -58,6 +58,8 @@ def run(prog: Program, rep: Report, tier: str) -> None:
     k = check_fresh_names(rep, prog, 'C17-D2 fresh-name', [np])
     from ..rules.freshname import check_generators_once
     check_generators_once(rep, prog, 'C17-D2 fresh-name one-shot', [prog.func('fggs.utils', 'unique_label_name')])
+    from ..rules.freshname import check_returns_verified
+    check_returns_verified(rep, 'C17-D2 fresh-name verified', prog.func('fggs.utils', 'unique_label_name'))
     rep.floor('C17-D2', k, 1)
     loops = [n for n in own_nodes(np.node) if isinstance(n, ast.For)]
     its = sorted(norm(inline_temps(np.node, l.iter)) for l in loops)
